@@ -111,6 +111,9 @@ func c10SpinPattern(b []byte) bool {
 // reader is exhausted, so a flexible body in which a large uvarint can be decoded as a tag
 // count would stall the enumeration. The real ParseRequestHeader is still executed here.
 func c10SpinGuard(payload []byte) (skip bool) {
+	if !c10SpinPattern(payload) {
+		return false
+	}
 	defer func() {
 		if recover() != nil {
 			skip = false // let the full drive hit and classify the panic
@@ -232,10 +235,13 @@ func (a *c10Agg) add(key string, ord int64, stream []byte, mk func() c10Viol) {
 
 // ---- outcome signatures ----
 
-func c10StripDigits(s string) string {
-	b := make([]byte, 0, len(s))
+func c10StripDigits(s string) string { return string(c10AppendStripped(nil, s)) }
+
+// c10AppendStripped appends s with every run of digits/minus signs replaced by '#', at most 70 bytes.
+func c10AppendStripped(b []byte, s string) []byte {
+	start := len(b)
 	lastHash := false
-	for i := 0; i < len(s) && len(b) < 70; i++ {
+	for i := 0; i < len(s) && len(b)-start < 70; i++ {
 		c := s[i]
 		if (c >= '0' && c <= '9') || c == '-' {
 			if !lastHash {
@@ -247,7 +253,7 @@ func c10StripDigits(s string) string {
 		lastHash = false
 		b = append(b, c)
 	}
-	return string(b)
+	return b
 }
 
 func c10OutcomeOf(res *c10Result) string {
@@ -266,6 +272,36 @@ func c10OutcomeOf(res *c10Result) string {
 type c10Sigs struct {
 	rep  *vh.Report
 	seen map[string]bool
+	buf  []byte
+}
+
+// addOutcome records prefix+outcome(res) without allocating when the signature is known.
+func (s *c10Sigs) addOutcome(prefix string, res *c10Result, nontrivial bool) bool {
+	b := s.buf[:0]
+	if nontrivial {
+		b = append(b, '!')
+	} else {
+		b = append(b, '.')
+	}
+	b = append(b, prefix...)
+	switch {
+	case res.PanicKey != "":
+		b = append(b, res.PanicKey...)
+	case res.FrameErr != nil:
+		b = c10AppendStripped(append(b, "frame-err:"...), res.FrameErr.Error())
+	case res.ParseErr != nil:
+		b = c10AppendStripped(append(b, "parse-err:"...), res.ParseErr.Error())
+	default:
+		b = append(b, "parsed"...)
+	}
+	s.buf = b
+	if s.seen[string(b)] {
+		return false
+	}
+	k := string(b)
+	s.seen[k] = true
+	s.rep.Outcome(k[1:], nontrivial)
+	return true
 }
 
 func (s *c10Sigs) add(sig string, nontrivial bool) bool {
@@ -337,7 +373,7 @@ func c10HeaderKeys(ranges map[int16][2]int16, thorough bool) []c10KeyInfo {
 		if fb := c10FlexBoundary(k); fb >= 0 {
 			cand = append(cand, fb-1, fb)
 		}
-		if rq := kmsg.RequestForKey(k); rq != nil {
+		if rq := kmsg.RequestForKey(k); rq != nil && thorough {
 			cand = append(cand, rq.MaxVersion(), rq.MaxVersion()+1)
 		}
 		cand = append(cand, 32767)
@@ -354,10 +390,10 @@ func c10HeaderKeys(ranges map[int16][2]int16, thorough bool) []c10KeyInfo {
 }
 
 // c10Sections enumerates tagged-field sections (bytes that follow the client id), each ending
-// with a 6-byte tail that plays the role of tagged data / request body. rem=6 is the number of
+// with a 4-byte tail that plays the role of tagged data / request body. rem=4 is the number of
 // bytes available to the last size field.
-func c10Sections(thorough bool) (secs [][]byte, descs []string) {
-	const tail = "\x00\x00\x00\x01\x02\x03"
+func c10Sections(thorough bool) (secs [][]byte, descs []string, uniqFrom []int) {
+	const tail = "\x00\x00\x01\x02"
 	rem := uint64(len(tail))
 	counts := []uint64{0, 1, 2, 127, 128, 1 << 31, 1 << 63, 1<<64 - 1}
 	sizes := []uint64{0, 1, 2, rem - 1, rem, rem + 1, 127, 128, 1<<31 - 1, 1 << 31, 1 << 32, 1 << 62, 1<<63 - 1, 1 << 63, 1<<63 + 1, 1<<64 - 2, 1<<64 - 1}
@@ -382,8 +418,10 @@ func c10Sections(thorough bool) (secs [][]byte, descs []string) {
 	emit := func(cnt []byte, cdesc string, l []fld) {
 		b := append([]byte{}, cnt...)
 		d := "count=" + cdesc
+		uf := len(b) - 1
 		for i, f := range l {
 			b = c10PutUvarint(b, f.tag)
+			uf = len(b) // prefixes ending before the last size varint are shared with sibling sections
 			b = c10PutUvarint(b, f.size)
 			d += fmt.Sprintf(" f%d(tag=%d,size=%d)", i, f.tag, f.size)
 			if i == 0 && len(l) == 2 {
@@ -393,6 +431,7 @@ func c10Sections(thorough bool) (secs [][]byte, descs []string) {
 		b = append(b, tail...)
 		secs = append(secs, b)
 		descs = append(descs, d)
+		uniqFrom = append(uniqFrom, uf)
 	}
 	for _, c := range counts {
 		for _, l := range lists {
@@ -518,9 +557,17 @@ func (c *c10Corpus) add(e []c10CorpusEntry) {
 
 var c10CorpusKeys = map[int16]bool{APIKeyApiVersion: true, APIKeyMetadata: true, APIKeyProduce: true, APIKeyFindCoordinator: true, -1: true, kmsg.MaxKey + 1: true}
 
+func c10Workers() int {
+	n := runtime.GOMAXPROCS(0)
+	if n > 8 {
+		n = 8 // allocation-heavy loops stop scaling beyond this, and the host is shared
+	}
+	return n
+}
+
 func c10PhaseHeaders(rep *vh.Report, agg *c10Agg, ranges map[int16][2]int16, thorough bool, deadline time.Time, ord *int64, corpus *c10Corpus) {
 	keys := c10HeaderKeys(ranges, thorough)
-	secs, sdescs := c10Sections(thorough)
+	secs, sdescs, uniqFrom := c10Sections(thorough)
 	rep.SetInfo("header_keys", len(keys))
 	rep.SetInfo("header_tag_sections", len(secs))
 	// ordinal layout: key index major, so ordinals do not depend on worker scheduling
@@ -532,7 +579,7 @@ func c10PhaseHeaders(rep *vh.Report, agg *c10Agg, ranges map[int16][2]int16, tho
 	jobs := make(chan int)
 	var sampleMu sync.Mutex
 	var sampleN atomic.Int64
-	for w := 0; w < runtime.GOMAXPROCS(0); w++ {
+	for w := 0; w < c10Workers(); w++ {
 		wg.Add(1)
 		go func() {
 			defer wg.Done()
@@ -548,6 +595,10 @@ func c10PhaseHeaders(rep *vh.Report, agg *c10Agg, ranges map[int16][2]int16, tho
 						break
 					}
 					flex := c10IsFlexible(k.Key, ver)
+					prefix := "A|" + k.Class + "|flex=" + fmt.Sprint(flex) + "|"
+					// truncations that end before a section's last size varint are shared by many
+					// payloads; each distinct byte string is executed once
+					shared := map[string]struct{}{}
 					for si, sec := range secs {
 						cids, cdescs := c10ClientIDs(sec)
 						for ci, cid := range cids {
@@ -557,23 +608,28 @@ func c10PhaseHeaders(rep *vh.Report, agg *c10Agg, ranges map[int16][2]int16, tho
 							binary.BigEndian.PutUint32(payload[4:], 0x01020304)
 							payload = append(payload, cid...)
 							payload = append(payload, sec...)
+							sharedUpTo := 8 + len(cid) + uniqFrom[si]
 							buf := c10Frame(payload)
 							for tr := len(payload); tr >= 0; tr-- {
+								o++
+								if tr <= sharedUpTo {
+									if _, dup := shared[string(payload[:tr])]; dup {
+										continue
+									}
+									shared[string(payload[:tr])] = struct{}{}
+								}
 								binary.BigEndian.PutUint32(buf, uint32(tr))
 								stream := buf[:4+tr]
-								o++
 								if c10SpinGuard(stream[4:]) {
 									skipped++
 									continue
 								}
 								res := c10Drive(stream, 0)
 								evals++
-								out := c10OutcomeOf(&res)
 								nontriv := tr >= 8
-								sig := "A|" + k.Class + "|flex=" + fmt.Sprint(flex) + "|" + out
-								if sigs.add(sig, nontriv) && nontriv && sampleN.Add(1) <= 2 {
+								if sigs.addOutcome(prefix, &res, nontriv) && nontriv && sampleN.Add(1) <= 2 {
 									sampleMu.Lock()
-									rep.Sample(map[string]any{"phase": "A", "key": k.Key, "version": ver, "client_id": cdescs[ci], "tagged_section": sdescs[si], "truncated_to": tr, "stream_hex": hex.EncodeToString(stream), "outcome": out})
+									rep.Sample(map[string]any{"phase": "A", "key": k.Key, "version": ver, "client_id": cdescs[ci], "tagged_section": sdescs[si], "truncated_to": tr, "stream_hex": hex.EncodeToString(stream), "outcome": c10OutcomeOf(&res)})
 									sampleMu.Unlock()
 								}
 								if res.PanicKey != "" {
@@ -763,7 +819,7 @@ func c10PhaseMutations(t *testing.T, rep *vh.Report, agg *c10Agg, pairs []c10KV,
 	var genErr atomic.Value
 	var wg sync.WaitGroup
 	jobs := make(chan int)
-	for w := 0; w < runtime.GOMAXPROCS(0); w++ {
+	for w := 0; w < c10Workers(); w++ {
 		wg.Add(1)
 		go func() {
 			defer wg.Done()
@@ -773,6 +829,7 @@ func c10PhaseMutations(t *testing.T, rep *vh.Report, agg *c10Agg, pairs []c10KV,
 				o := base + perPair*int64(pi)
 				var evals, skipped int64
 				flex := c10IsFlexible(kv.Key, kv.Version)
+				cprefix := fmt.Sprintf("C|flex=%v|", flex)
 				vs := variants
 				if flex && !thorough {
 					vs = []int{0, 1} // variants without >=0x80 bytes: not masked by the spin guard
@@ -798,8 +855,7 @@ func c10PhaseMutations(t *testing.T, rep *vh.Report, agg *c10Agg, pairs []c10KV,
 						evals++
 						stream := c10Frame(mut)
 						res := c10Drive(stream, 0)
-						out := c10OutcomeOf(&res)
-						sigs.add(fmt.Sprintf("C|flex=%v|%s", flex, out), len(mut) >= 8)
+						sigs.addOutcome(cprefix, &res, len(mut) >= 8)
 						if res.PanicKey != "" {
 							agg.add(res.PanicKey, o, stream, func() c10Viol {
 								return c10Viol{
@@ -989,7 +1045,8 @@ func c10PhaseRoundTrip(t *testing.T, rep *vh.Report, agg *c10Agg, pairs []c10KV,
 	var wg sync.WaitGroup
 	jobs := make(chan int)
 	var sampleMu sync.Mutex
-	for w := 0; w < runtime.GOMAXPROCS(0); w++ {
+	var sampleN atomic.Int64
+	for w := 0; w < c10Workers(); w++ {
 		wg.Add(1)
 		go func() {
 			defer wg.Done()
@@ -1008,7 +1065,7 @@ func c10PhaseRoundTrip(t *testing.T, rep *vh.Report, agg *c10Agg, pairs []c10KV,
 						return false
 					}
 					nontriv := flex || c.gen.Variant != 0 || c.clientID != nil
-					if sigs.add(sig, nontriv) && nontriv && key == "" && c.gen.Variant == 1 && c.gen.SubLeaf < 0 && rep.WantSample() {
+					if sigs.add(sig, nontriv) && nontriv && key == "" && c.gen.Variant == 1 && c.gen.SubLeaf < 0 && c.clientID != nil && flex && sampleN.Add(1) <= 2 {
 						sampleMu.Lock()
 						rep.Sample(map[string]any{"phase": "D", "request": kmsg.NameForKey(kv.Key), "version": kv.Version, "frame_hex": hex.EncodeToString(frame), "outcome": "same"})
 						sampleMu.Unlock()
@@ -1104,6 +1161,22 @@ func c10PhaseServer(t *testing.T, rep *vh.Report, agg *c10Agg, corpus *c10Corpus
 	if _, err := os.Stat(ov); err != nil {
 		rep.Cap("server-level phase skipped: overlay.json missing")
 		return nil
+	}
+	// the reported (smallest) parser-level counterexamples are always part of the corpus
+	have := map[string]bool{}
+	for _, e := range corpus.entries {
+		have[string(e.Stream)] = true
+	}
+	for k, l := range agg.ex {
+		if !strings.HasPrefix(k, "panic:") {
+			continue
+		}
+		for _, v := range l {
+			if v.Replay.Kind == "bytes" && v.Replay.Mode == 0 && len(v.Stream) >= 4 && binary.BigEndian.Uint32(v.Stream) < 1<<20 && !have[string(v.Stream)] {
+				have[string(v.Stream)] = true
+				corpus.entries = append(corpus.entries, c10CorpusEntry{Ord: v.Ord, Stream: v.Stream, Panicked: true})
+			}
+		}
 	}
 	sort.Slice(corpus.entries, func(i, j int) bool { return corpus.entries[i].Ord < corpus.entries[j].Ord })
 	in := filepath.Join(scratch, "c10-corpus.txt")
